@@ -230,6 +230,9 @@ func (db *DB) collectGarbage() (collectedCount uint64, done bool, err error) {
 		return 0, false, err
 	}
 
+	// the persisted counter is the total of the counts recorded in the gc
+	// index, so removing an entry releases exactly its recorded count
+	releasedCount := uint64(0)
 	for _, item := range recycledItems {
 		// delete from retrieve, gc
 		err = db.retrievalDataIndex.DeleteInBatch(batch, item)
@@ -246,17 +249,19 @@ func (db *DB) collectGarbage() (collectedCount uint64, done bool, err error) {
 		}
 
 		currentCollectedCount++
+		releasedCount += item.GCounter
 	}
 
 	// if gcIndex missing, we should set gcSize to zero.
 	if len(recycledItems) == 0 {
 		// force gc clean
 		currentCollectedCount = gcSize
+		releasedCount = gcSize
 	}
 
 	currentSize := uint64(0)
-	if currentCollectedCount <= gcSize {
-		currentSize = gcSize - currentCollectedCount
+	if releasedCount <= gcSize {
+		currentSize = gcSize - releasedCount
 	}
 
 	if currentSize > target {
